@@ -46,3 +46,80 @@ func (m *Mutex) Unlock() {
 	s.Released(m)
 	s.Point("mutex.unlock")
 }
+
+// TryLock: a scheduling point, then an attempt that never blocks.
+func (m *Mutex) TryLock() bool {
+	s := Active
+	if s == nil {
+		return m.real.TryLock()
+	}
+	s.Point("mutex.trylock")
+	if m.held {
+		return false
+	}
+	m.held = true
+	return true
+}
+
+// RWMutex: writers exclude everybody, readers exclude writers. Under the scheduler it is built from the Mutex above (a reader
+// holds the mutex only while it adjusts the reader count; a writer holds it throughout and waits for the count to drain by
+// yielding), which is enough for the exploration to see every interleaving of the lock operations.
+type RWMutex struct {
+	real    sync.RWMutex
+	w       Mutex
+	readers int
+}
+
+func (m *RWMutex) Lock() {
+	s := Active
+	if s == nil {
+		m.real.Lock()
+		return
+	}
+	m.w.Lock()
+	for m.readers > 0 {
+		m.w.Unlock()
+		s.Point("rwmutex.wait-readers")
+		m.w.Lock()
+	}
+}
+
+func (m *RWMutex) Unlock() {
+	if Active == nil {
+		m.real.Unlock()
+		return
+	}
+	m.w.Unlock()
+}
+
+func (m *RWMutex) RLock() {
+	if Active == nil {
+		m.real.RLock()
+		return
+	}
+	m.w.Lock()
+	m.readers++
+	m.w.Unlock()
+}
+
+func (m *RWMutex) RUnlock() {
+	if Active == nil {
+		m.real.RUnlock()
+		return
+	}
+	m.w.Lock()
+	m.readers--
+	m.w.Unlock()
+}
+
+// the rest of package sync passes through unchanged (no scheduling points of their own)
+type (
+	Once      = sync.Once
+	Pool      = sync.Pool
+	WaitGroup = sync.WaitGroup
+	Map       = sync.Map
+	Locker    = sync.Locker
+	Cond      = sync.Cond
+)
+
+func NewCond(l Locker) *Cond { return sync.NewCond(l) }
